@@ -15,7 +15,8 @@ for d in $dirs; do
   else
     t0=$(date +%s)
     out=$(VERIF_REPO=$wt ./check $prop $tier 2>&1); rc=$?
-    keys=$(echo "$out" | grep '^  key=' | sed 's/ what=.*//' | sort -u | tr '\n' ' ')
+    nk=$(echo "$out" | grep -c '^  key=')
+    keys="$nk keys: $(echo "$out" | grep '^  key=' | sed 's/ what=.*//' | sort -u | head -6 | tr '\n' ' ')"
     echo "$d $prop rc=$rc wall=$(( $(date +%s)-t0 ))s $keys"
     [ $rc -eq 2 ] && echo "$out" | grep INCONCLUSIVE | head -3
   fi
